@@ -252,7 +252,7 @@ type sess struct {
 
 func newSess(w *world, mount, engine string, setupSeed uint64, res *result) (*sess, error) {
 	rt, cm := w.guest(engine)
-	mc, si := w.buildConfig(mount, setupSeed)
+	mc, si := w.buildConfig(mount, engine, setupSeed)
 	mod, err := rt.InstantiateModule(w.ctx, cm, mc)
 	if err != nil {
 		return nil, fmt.Errorf("%v (setup %v)", err, si.Steps)
@@ -266,8 +266,18 @@ func newSess(w *world, mount, engine string, setupSeed uint64, res *result) (*se
 	res.count("setup:"+si.Shape, 1)
 	if si.Hostile {
 		res.count("sessions_with_hostile_siblings", 1)
+		res.count("throwaway_instantiations", int64(si.Used))
+		if si.AncestorUsedBefore {
+			res.count("sessions_ancestor_used_before_derivation", 1)
+		}
+		if si.UsedBetween {
+			res.count("sessions_config_used_between_derivation_and_test", 1)
+		}
+		if si.ModuleConfigReused {
+			res.count("sessions_module_config_derived_from_instantiated_one", 1)
+		}
 		for _, st := range si.Steps {
-			if strings.HasPrefix(st, "_ = ") || strings.HasPrefix(st, "rw") {
+			if strings.HasPrefix(st, "_ = ") || strings.HasPrefix(st, "rw") || strings.HasPrefix(st, "sib") || strings.HasPrefix(st, "use(") || strings.HasPrefix(st, "pre") || strings.HasPrefix(st, "mc") {
 				res.SiblingOps = append(res.SiblingOps, st)
 			}
 		}
@@ -288,17 +298,28 @@ func newSess(w *world, mount, engine string, setupSeed uint64, res *result) (*se
 func (s *sess) probe() {
 	s.beginUnit()
 	s.sigTag = "after-sibling-override"
+	if s.setup.Used > 0 {
+		// some ancestor / sibling / the config itself had been instantiated before
+		s.sigTag = "after-config-reuse"
+	}
+	tag := s.sigTag
 	before := len(s.res.Findings)
 	var total int64
 	for _, n := range s.res.SigCounts {
 		total += n
 	}
 	s.path1("path_create_directory", 3, "c17-sibling-probe")
-	if s.rwFd >= 0 && !s.setup.ExtraRW {
-		s.path1("path_create_directory", s.rwFd, "c17-sibling-probe")
+	if s.rwFd >= 0 {
+		// the second configured pre-open must exist
+		if r, err := s.fn("fd_prestat_get").Call(s.w.ctx, uint64(s.rwFd), offStat); err != nil || len(r) != 1 || r[0] != 0 {
+			s.report(s.mount+":"+tag+":preopen-missing",
+				fmt.Sprintf("the config instantiated on %s (%s) lacks its second pre-open (fd %d); derivations: %v", s.mount, s.engine, s.rwFd, s.setup.Steps), nil)
+		} else if !s.setup.ExtraRW {
+			s.path1("path_create_directory", s.rwFd, "c17-sibling-probe")
+		}
 	}
 	if errno, sz, _ := s.pathFilestatGet(3, lookupFollow, knownFile); errno != 0 || sz != uint64(len(knownContent)) {
-		s.report(s.mount+":after-sibling-override:mount-replaced",
+		s.report(s.mount+":"+tag+":mount-replaced",
 			fmt.Sprintf("the config instantiated on %s (%s) does not show the tree it was built with: path_filestat_get(%q) = %s size=%d; derivations: %v",
 				s.mount, s.engine, knownFile, s.calls[len(s.calls)-1].Errno, sz, s.setup.Steps), nil)
 	}
